@@ -103,6 +103,17 @@ func c18Gen(rng *verifsim.RNG, idx int, tier string) *Plan {
 		p.Faults = append(p.Faults, Fault{Seam: "read.post", From: rng.Int63n(t + 1), Count: rng.Range(1, 4), Lat: int64(rng.Dur(time.Millisecond, 1500*time.Millisecond))})
 		p.Class += "+slow-receive"
 	}
+	if rng.Bool(0.2) {
+		// isolated receive timeouts scattered between the messages (never five
+		// in a row): each receive has its own retry budget
+		k := rng.Range(5, 9)
+		at := 1
+		for i := 0; i < k; i++ {
+			at += rng.Range(2, 3)
+			p.Faults = append(p.Faults, Fault{Seam: "read", Err: "timeout", N: at})
+		}
+		p.Class += "+timeouts"
+	}
 	p.Horizon = t + 2*nsSec
 	return p
 }
@@ -216,9 +227,32 @@ func c18Oracle(info *runInfo, res *verifsim.Result) {
 		}
 	}
 	flush()
+	// Five receive timeouts without a valid message between them exhaust the
+	// documented retry budget of one receive (ignored invalid messages do not
+	// start a new receive): the monitor then ends, as documented.
+	exhausted := false
+	for run, i := 0, 0; i < len(h.ev); i++ {
+		e := &h.ev[i]
+		if e.K != "read.exit" || e.If != ifn {
+			continue
+		}
+		switch {
+		case e.Err == "timeout":
+			if run++; run >= 5 {
+				exhausted = true
+			}
+		case e.Err == "" && e.V == 255:
+			run = 0
+		}
+	}
 	for i := range h.ev {
 		e := &h.ev[i]
 		if e.K == "task.exit" && taskIface(e.S) == ifn && (stopSeq == 0 || e.Seq < stopSeq) {
+			if exhausted && strings.Contains(e.Err, "exhausted receive retries") {
+				res.Probe("retry_budget_exhausted")
+				res.Nontrivial = nRA >= 1
+				return
+			}
 			res.Violate("C18.fail", "stopped", "%s: monitor ended at %s: %s", ifn, ms(e.T), e.Err)
 		}
 	}
